@@ -30,6 +30,8 @@ Known defects are steered around in the random histories (--avoid, default on) a
   stale-redefinition:lambda-linecache, equal-code-alias:default-removed, defaults-removed:shared-code-object.
 
 usage: c10_cache.py <seed> <tier> [--worlds N] [--no-avoid] [--no-witnesses] [--maxfail N]
+       c10_cache.py 0 <tier> --replay-world <index>,<world seed>,<threads> [--no-avoid]   (printed in every failure;
+       plans are a function of the world seed, the interleaving is not: a race may need several replays)
 """
 import argparse
 import gc
@@ -378,7 +380,6 @@ def _run_world(item):
   res = dict(widx=widx, seed=seed, threads=T, evaluated=0, keys={}, failures=[], fresh_checked=0, transforms=0,
              phases=nphases, collected_families=0)
   nextver = {}
-  records = []          # (request descriptor, outcome) of the whole world, judged after each phase
 
   def new_family(name):
     nextver[name] = nextver.get(name, -1) + 1
@@ -387,7 +388,8 @@ def _run_world(item):
   def fail(kind, sig, what, **extra):
     if len(res['failures']) < 6:
       d = dict(kind=kind, sig=sig, what=what, world_seed=seed, threads=T, tier=tier,
-               replay='c10_cache.py --replay-world %d,%d,%d %s' % (widx, seed, T, tier))
+               replay='c10_cache.py 0 %s --replay-world %d,%d,%d%s' % (tier, widx, seed, T,
+                                                                         '' if avoid else ' --no-avoid'))
       d.update(extra)
       res['failures'].append(d)
 
@@ -430,6 +432,12 @@ def _run_world(item):
         continue
       res['fresh_checked'] += 1
       res['evaluated'] += 1
+      for which, r in (('a fresh conversion', ref), ('the cache under test', got)):
+        if r[0] != r[5]:
+          stale = isinstance(r[0], tuple) and r[0][:1] != r[5][:1]
+          fail('stale-code' if stale else 'value-differs', '%s.%s.to_graph' % (vname, optname(optkey)),
+               'right after the (re)definition %s gives %r, the function itself %r' % (which, r[0], r[5]),
+               family=fam.tag, program=fam.src)
       if ref[:3] != got[:3]:
         fail('differs-from-fresh', '%s.%s.to_graph' % (vname, optname(optkey)),
              'cache under test gives (value, counts, identity) %r, a fresh conversion %r' % (got[:3], ref[:3]),
